@@ -91,9 +91,12 @@ class Engine:
         self.funcs = {}      # name -> (unit, f)
         self.unitfuncs = {}  # (unit,name) -> f
         self.globals = {}
+        self.gunit = {}
         for u, d in units.items():
             for g in d['globals']:
-                if g['init'] or g['name'] not in self.globals: self.globals[g['name']] = g     # the defining unit wins over extern declarations
+                if g['init'] or g['name'] not in self.globals:
+                    self.globals[g['name']] = g     # the defining unit wins over extern declarations
+                    self.gunit[g['name']] = u
             for f in d['functions']:
                 if f['decl']: continue
                 self.unitfuncs[(u, f['name'])] = f
@@ -117,17 +120,21 @@ class Engine:
             reg = ('G', n)
             for it in g['init']:
                 if 'ptr' in it:
-                    av = self.const_operand(it['ptr'])
+                    av = self.const_operand(it['ptr'], self.gunit.get(n))
                     self.mem.store(reg, it['off'], av)
         self.mem.changed = False
-    def const_operand(self, o):
+    def const_operand(self, o, unit=None):
         k = o['k']
-        if k == 'f': return AV(frozenset(), frozenset([(('F', o['v']), 0)]))
+        if k == 'f':
+            # a static function named in a global initialiser is the one of the unit that defines the global
+            if unit is not None and (unit, o['v']) in self.unitfuncs and self.unitfuncs[(unit, o['v'])]['internal']:
+                return AV(frozenset(), frozenset([(('F', unit + '::' + o['v']), 0)]))
+            return AV(frozenset(), frozenset([(('F', o['v']), 0)]))
         if k == 'g': return AV(frozenset(), frozenset([(('G', o['v']), 0)]))
         if k == 'cegep':
-            b = self.const_operand(o['base'])
+            b = self.const_operand(o['base'], unit)
             return AV(b.labels, frozenset((r, (off + o['off']) if off is not None else None) for r, off in b.ptrs))
-        if k == 'cecast': return self.const_operand(o['base'])
+        if k == 'cecast': return self.const_operand(o['base'], unit)
         return BOT
     # ---------- external memory policy
     def ext(self, region, off):
@@ -492,7 +499,11 @@ class Engine:
                 r = BOT
                 for a in A: r = r.join(a)
                 res = res.join(AV(r.labels)); continue
-            r = self.run_function(t, ctx + ((fn, i['id']),), A, unit=u)
+            if '::' in t:
+                tu, t = t.split('::', 1)
+                r = self.run_function(t, ctx + ((fn, i['id']),), A, unit=tu)
+            else:
+                r = self.run_function(t, ctx + ((fn, i['id']),), A, unit=u)
             if r is None: res = res.join(self.unknown_call(A, t))
             elif t in getattr(self.policy, 'public_results', ()): res = res.join(AV(frozenset(), r.ptrs))     # documented public verdict
             else: res = res.join(r)
